@@ -16,6 +16,9 @@ type Plan struct {
 	RoundTrip bool // emit `dec` of every successful encoding and `canon` lines
 	Big       bool // allow boundary-length byte payloads
 	BothModes bool // encode every value with and without validation (else one mode at random)
+	// ThoroughScale, when > 0, replaces the thorough tier's factor 20 for the number of random universes (the catalogue
+	// rounds keep the full factor): C01 runs four harness/driver pairs inside one 20-minute budget
+	ThoroughScale int
 }
 
 func (x *Runner) line(op string) string {
@@ -303,7 +306,11 @@ func Main(prop string, rule string, plan Plan, casesQuick int, corpus [][]string
 			x.GenSomCase(rng, sub, name)
 		}
 	}
-	n := casesQuick * r.Scale
+	scale := r.Scale
+	if r.Scale > 1 && plan.ThoroughScale > 0 {
+		scale = plan.ThoroughScale
+	}
+	n := casesQuick * scale
 	for i := 0; i < n; i++ {
 		rng, sub := r.Rng.Fork()
 		tseed := rng.U64()
